@@ -62,6 +62,8 @@ def grid(tier, seed):
     # the parent is held up between a timed-out poll and the reaping of its children while the last workers queue their result and exit
     base += [dict(n=2, pool=2, max_tasks=25, task_ms=1300, inject={"seed": 3, "max_ms": 0, "prob": 0.0, "fixed": {"parent_before_reap": 600}}),
              dict(n=3, pool=3, max_tasks=1, task_ms=1250, api="run", inject={"seed": 4, "max_ms": 0, "prob": 0.0, "fixed": {"parent_before_reap": 500}})]
+    # a run that lasts longer than task_timeout although results keep arriving (the timeout counts from the last result)
+    base += [dict(n=12, pool=2, max_tasks=25, task_ms=700, task_timeout=3), dict(n=6, pool=3, max_tasks=2, task_ms=300, consumer_ms=700, task_timeout=3, api="irun")]
     # the same id submitted several times: every submission has its own outcome
     base += [dict(n=8, pool=2, max_tasks=2, dup_ids=True), dict(n=4, pool=4, max_tasks=25, dup_ids=True, task_ms=2, task_jitter=True),
              dict(n=10, pool=3, max_tasks=25, dup_ids=True, consumer_ms=5)]
